@@ -122,12 +122,13 @@ func (j *job) apply(vs *types.VoteSet, t *token) (added bool, err error, p strin
 }
 
 // judge evaluates every transition oracle: pre-state observation/oracle, the token, what the real
-// object returned, post-state observation/oracle and whether the state key changed.
+// object returned, post-state observation/oracle and whether the state key changed. A nil token
+// judges the initial (empty) state.
 func (j *job) judge(pre obs, t *token, added bool, err error, keyChanged bool, post obs, or oracleState) []fired {
 	var f []fired
 	n := j.n
 	add := func(o, d string, a ...interface{}) { f = append(f, fired{o, fmt.Sprintf(d, a...)}) }
-	if t.vote != nil && !t.counts {
+	if t != nil && t.vote != nil && !t.counts {
 		if added && err == nil {
 			add("invalid-vote-accepted", "%s returned added=true, err=nil", t.name)
 		}
